@@ -67,6 +67,21 @@ CHECKS = {
          "recorded call log = demanded nested log (order, exactly once). Verdicts: every (state, request, verdict) transition of the verdict model replayed on a fresh broker: response codes, deliveries to an independent observer and the subject, "
          "ClientService/SubscriptionService/RetainedService snapshots compared (reject leaves no trace, rewrite is what is seen, will edit/drop). Volume run of rejected CONNECTs over all failure codes.",
     note="Three open known findings (retained store updated before OnMsgArrived; occasionally lost failing CONNACK; multi-step enhanced auth never completes) handled as named deviations / signatures: strict pass reports them, second pass with deviations on covers the full graph."),
+ "C13": dict(
+    level="model_checking", ref="DESIGN.md §4 C13",
+    technique="TLC exhaustive AliasFifo.tla + replay of all topic sequences on the real alias manager; trace validation of boundary scenarios against Broker.tla limit rules",
+    text="Alias manager: TLC enumerates every topic sequence up to length 6 (8 thorough) over 4 topics for max 1..3; each real answer is judged by the client-view rule (alias in 1..max; alias-only resolves to the real topic). "
+         "Limits: boundary scenarios over validator-accepted configurations: outbound PUBLISH sizes at M-1/M/M+1 of the client's Maximum Packet Size (dropped whole, connection stays), outbound aliases within the client's maximum and resolving, "
+         "inbound aliases 1..max with rebinding (never disconnected) and 0 / max+1 / 65535 / unbound (0x94), QoS2 exchanges held open up to Receive Maximum (ok) and one more (0x93), inbound packets at max-1/max (ok) and max+1 (0x95); "
+         "TLC validates every event against Broker.tla (Offences, SrvDisconnect only when owed, Fits).",
+    note="Would-be forwarded size computed by the independent codec for the one size-limited subscriber of a scenario. v5 only (v3 has no such limits). Bounded configurations: server_receive_maximum {1,2,3,10,100,65535}, topic_alias_maximum {1,2,5,10}, max_packet_size {40..300}."),
+ "C19": dict(
+    level="model_checking", ref="DESIGN.md §4 C19",
+    technique="TLC exhaustive AuthGate.tla + transition-coverage replay against a real broker with the real auth plugin (mqttwire clients, account API handlers, restarts)",
+    text="AuthGate.tla (accounts, password file, victim-state tokens; Update/Delete/Restart/Connect/PreAuth) is explored exhaustively; every transition is replayed on a fresh real broker with the real auth plugin: concrete credentials for the abstract classes "
+         "(exact, prefix, case, trailing NUL, repeated, empty, 65535 bytes), user/password flag combinations, v3.1/v3.1.1/v5, Authentication Method/Data present, all four hash algorithms, absolute and relative password files, TCP and WebSocket listeners; "
+         "accept/reject, account-operation effects, what a restarted broker loads, and inertness of packets before / after a failed CONNECT (service snapshots) are compared with the specification.",
+    note="Two open known findings (valid credentials refused when an Authentication Method is present - allowed by MQTT 5; failing CONNACK occasionally lost). bcrypt cost is the plugin's fixed MinCost."),
 }
 
 NOT_YET = {
